@@ -1,4 +1,5 @@
 import GmqttVerif.Model.Broker
+import GmqttVerif.Model.BrokerCfg
 import Driver.Common
 /- line protocol for wire-level broker scenarios; mirrors harness/cmd/drive_broker -/
 namespace Driver.Broker
@@ -139,7 +140,9 @@ def step (st : St) (line : String) : St × String :=
   | "new" :: rest =>
     let (_, m) := kvSplit rest
     let cfg := parseCfg m
-    let valid := cfg.maxQueued > 0 && cfg.recvMax != 0 && cfg.maxPacket != 0 && cfg.maxInflight != 0 && cfg.maxQueued ≥ cfg.maxInflight
+    -- `config.MQTT.Validate`: the clauses over modelled fields (`Cfg.validB`) + the two over fields the model does not carry
+    let modeOk := match getS m "mode" with | some v => v == "overlap" || v == "onlyonce" | none => true
+    let valid := cfg.validB && modeOk && getN m "qos" 2 ≤ 2
     if !valid && getN m "novalidate" 0 == 0 then ({ have_ := false }, "invalid-config")
     else ({ b := { cfg := cfg }, have_ := true }, "ok")
   | op :: rest =>
